@@ -237,57 +237,50 @@ pub fn bare_db(s: &str) -> String {
     t.to_string()
 }
 
-/// Expected observable behaviour of a pipelined command list.
-pub struct Expect {
-    /// acceptable callback logs (after the Auth callback)
-    pub logs: Vec<Vec<Cb>>,
-    /// must run_on return Ok (true) / Err (false) for the matching log
-    pub ok: Vec<bool>,
-    /// how many commands are answered for the matching log
-    pub answered: Vec<usize>,
+/// One acceptable observable behaviour of a pipelined command list.
+#[derive(Clone, Debug)]
+pub struct Variant {
+    /// callback log (after the Auth callback)
+    pub log: Vec<Cb>,
+    /// must run_on return Ok (true) / Err (false)
+    pub ok: bool,
+    /// how many commands are answered (served, or skipped with an ERR reply)
+    pub answered: usize,
+    /// commands that were not handed to the shim but skipped: each must have been answered by
+    /// exactly one ERR (the client is waiting for a reply)
+    pub skipped: Vec<usize>,
 }
 
-pub fn expect_for(cmds: &[Vec<u8>]) -> Expect {
-    let mut reg = Registry::default();
-    let mut log = Vec::new();
-    for (i, c) in cmds.iter().enumerate() {
-        match reg.route(c) {
-            Routed::Cb(cb) => log.push(cb),
-            Routed::NoCb => {}
-            Routed::Quit => {
-                return Expect {
-                    logs: vec![log],
-                    ok: vec![true],
-                    answered: vec![i],
+/// Every behaviour the routing model accepts for `cmds`. Text that is not valid UTF-8 is never
+/// handed to the shim; the property does not say what else happens, so both "the connection ends
+/// there with an error" and "the command is refused with an ERR reply and the conversation goes
+/// on" (with the registry as it was) are variants.
+pub fn expect_variants(cmds: &[Vec<u8>]) -> Vec<Variant> {
+    fn go(cmds: &[Vec<u8>], from: usize, mut reg: Registry, mut log: Vec<Cb>, skipped: Vec<usize>, out: &mut Vec<Variant>) {
+        for i in from..cmds.len() {
+            match reg.route(&cmds[i]) {
+                Routed::Cb(cb) => log.push(cb),
+                Routed::NoCb => {}
+                Routed::Quit => {
+                    out.push(Variant { log, ok: true, answered: i, skipped });
+                    return;
                 }
-            }
-            Routed::Fatal | Routed::Refused => {
-                return Expect {
-                    logs: vec![log],
-                    ok: vec![false],
-                    answered: vec![i],
+                Routed::Fatal | Routed::Refused => {
+                    out.push(Variant { log, ok: false, answered: i, skipped });
+                    return;
                 }
-            }
-            Routed::Dropped => {
-                // either the connection ends here with an error, or the command is skipped
-                let rest = expect_for(&cmds[i + 1..]);
-                let mut logs = vec![log.clone()];
-                let mut ok = vec![false];
-                let mut answered = vec![i];
-                for (k, l) in rest.logs.iter().enumerate() {
-                    let mut full = log.clone();
-                    full.extend(l.iter().cloned());
-                    logs.push(full);
-                    ok.push(rest.ok[k]);
-                    answered.push(usize::MAX); // not decoded strictly in this case
+                Routed::Dropped => {
+                    out.push(Variant { log: log.clone(), ok: false, answered: i, skipped: skipped.clone() });
+                    let mut sk = skipped.clone();
+                    sk.push(i);
+                    go(cmds, i + 1, reg.clone(), log.clone(), sk, out);
+                    return;
                 }
-                return Expect { logs, ok, answered };
             }
         }
+        out.push(Variant { log, ok: true, answered: cmds.len(), skipped });
     }
-    Expect {
-        logs: vec![log],
-        ok: vec![true],
-        answered: vec![cmds.len()],
-    }
+    let mut out = Vec::new();
+    go(cmds, 0, Registry::default(), Vec::new(), Vec::new(), &mut out);
+    out
 }
